@@ -67,7 +67,7 @@ Init == l = 1
 Step ==
     /\ l <= Len(Rec)
     /\ l' = l + 1
-    /\ IF RecOK(Rec[l]) THEN TRUE ELSE PrintT(<<"REJECT", l>>)
+    /\ IF RecOK(Rec[l]) THEN TRUE ELSE PrintT("REJECT|" \o ToString(l) \o "|")
 Next == Step
 Spec == Init /\ [][Next]_vars
 
